@@ -1,5 +1,6 @@
 """C15 (wire positions, consistency part): every packed header struct that declares its bit-fields twice, once under
 `#if TINS_IS_LITTLE_ENDIAN` and once for big-endian hosts, must put every field on the SAME wire bits in both declarations
+and every enum that declares its enumerators once per byte order (16-bit constants kept in wire order in memory) must declare byte-swapped, pairwise distinct values
 (GCC allocates bit-fields from the least significant bit of the storage unit on little-endian targets and from the most
 significant bit on big-endian ones; the unit itself is stored in host byte order).  The wire format is one, so the two
 declarations are two descriptions of it: a field moved in only one of them (an edit made and tested on one kind of host)
@@ -84,6 +85,29 @@ def scan():
             line = txt[:m.start()].count('\n') + 1
             rel = os.path.relpath(h, REPO)
             pairs = []
+            em = None
+            for em in re.finditer(r'\benum\s+(\w+)\s*\{', txt[:m.start()]):
+                pass
+            if em and '}' not in txt[em.end():m.start()] and re.match(r'^\s*\w+\s*=', le):
+                # enumerators declared per byte order (constants kept in wire order in memory): the little-endian value must be the
+                # byte swap of the big-endian one, and no two enumerators of the enum may share a value
+                def enums(t):
+                    return dict((a, int(b, 0)) for a, b in re.findall(r'\b(\w+)\s*=\s*(0[xX][0-9a-fA-F]+|\d+)', re.sub(r'//[^\n]*', '', t)))
+                el, eb = enums(le), enums(be)
+                whole_end = txt.index('}', m.end())
+                outside = enums(txt[em.end():m.start()] + txt[m.end():whole_end])
+                bad = ['%s (little-endian 0x%04x, big-endian 0x%04x)' % (k, el[k], eb[k]) for k in sorted(set(el) & set(eb))
+                       if el[k] != (((eb[k] & 0xff) << 8) | (eb[k] >> 8))]
+                missing = sorted(set(el) ^ set(eb))
+                allv = dict(outside); allv.update(el)
+                dup = sorted(k for k in allv if sum(1 for j in allv if allv[j] == allv[k]) > 1)
+                detail = []
+                if bad: detail.append('not the byte swap of each other: ' + ', '.join(bad))
+                if missing: detail.append('declared for one byte order only: ' + ', '.join(missing))
+                if dup: detail.append('enumerators sharing a value on this host: ' + ', '.join('%s=0x%x' % (k, allv[k]) for k in dup))
+                rows.append((rel, line, 'enum ' + em.group(1), not detail, '; '.join(detail) if detail else
+                             '%d enumerators declared per byte order, each the byte swap of the other, all %d values of the enum distinct' % (len(el), len(allv))))
+                continue
             if re.search(r'\bstruct\s+\w+\s*\{', le):      # whole struct definitions per byte order (TCP flags, LLC control fields)
                 sl = dict(re.findall(r'\bstruct\s+(\w+)\s*\{(.*?)\}', le, re.S))
                 sb = dict(re.findall(r'\bstruct\s+(\w+)\s*\{(.*?)\}', be, re.S))
